@@ -77,7 +77,7 @@ func init() {
 		}
 		return nil
 	}
-	// sync.Pool: a LIFO free list kept in the struct's own `local` field (single goroutine)
+	// sync.Pool: a free list kept in the struct's own `local` field (single goroutine)
 	poolSlot := func(fr *frame, recv value) *value {
 		cell := recv.(*value)
 		st := (*cell).(structure)
@@ -89,21 +89,51 @@ func init() {
 		}
 		panic(unsupported("sync.Pool: unexpected layout"))
 	}
+	// The free list mirrors what the runtime does for one goroutine that stays on its P and sees
+	// no garbage collection: element 0 is the P's private slot (poolNone when empty), the rest is
+	// the P's shared chain, whose head is the last element. Put fills the private slot, else pushes
+	// the head; Get takes the private slot, else pops the head, else calls New.
 	externals["(*sync.Pool).Put"] = func(fr *frame, args []value) value {
 		if it, ok := args[1].(iface); ok && it.t == nil {
 			return nil
 		}
 		slot := poolSlot(fr, args[0])
 		stack, _ := (*slot).([]value)
-		*slot = append(append([]value{}, stack...), args[1])
+		if len(stack) == 0 {
+			*slot = []value{args[1]}
+			return nil
+		}
+		ns := append([]value{}, stack...)
+		if _, empty := ns[0].(poolNone); empty {
+			ns[0] = args[1]
+		} else {
+			ns = append(ns, args[1])
+		}
+		*slot = ns
 		return nil
 	}
 	externals["(*sync.Pool).Get"] = func(fr *frame, args []value) value {
 		slot := poolSlot(fr, args[0])
 		if stack, _ := (*slot).([]value); len(stack) > 0 {
-			v := stack[len(stack)-1]
-			*slot = append([]value{}, stack[:len(stack)-1]...)
-			return v
+			ns := append([]value{}, stack...)
+			if _, empty := ns[0].(poolNone); !empty {
+				v := ns[0]
+				ns[0] = poolNone{}
+				if len(ns) == 1 {
+					ns = nil
+				}
+				*slot = ns
+				return v
+			}
+			if len(ns) > 1 {
+				v := ns[len(ns)-1]
+				ns = ns[:len(ns)-1]
+				if len(ns) == 1 {
+					ns = nil
+				}
+				*slot = ns
+				return v
+			}
 		}
 		// New func() any
 		cell := args[0].(*value)
@@ -175,3 +205,6 @@ func init() {
 		}
 	}
 }
+
+// poolNone marks the empty private slot of the sync.Pool model.
+type poolNone struct{}
